@@ -42,7 +42,12 @@ for sid in sorted(os.listdir(f"{V}/seeded")):
         continue
     m = json.load(open(mp))
     ec, nv, first = sweep.get(sid, ("?", "?", ""))
-    if ec == "1":
+    if m.get("neutralised"):
+        kind = "no longer a violation (see note)" if ec != "1" else "FALSE ALARM?"
+        first = "neutralised by a repair: " + m["neutralised"][:110]
+        n_neutral = globals().get("n_neutral", 0) + 1
+        globals()["n_neutral"] = n_neutral
+    elif ec == "1":
         kind = "bounded stand-in" if first.startswith("standin:") else "proof obligation"
         n_proof += kind == "proof obligation"
         n_standin += kind == "bounded stand-in"
@@ -54,7 +59,9 @@ for sid in sorted(os.listdir(f"{V}/seeded")):
     json.dump(m, open(mp, "w"), indent=1)
     srows.append(f"| {sid} | {(m.get('summary') or '')[:170].replace('|', '/').replace(chr(10), ' ')} | {kind} | `{first[:100].replace('|', '/')}` |")
 t = t.replace("{{SEEDS}}", "\n".join(srows))
-t = t.replace("{{SEED_SUMMARY}}", f"{n_proof + n_standin} of {n_proof + n_standin + n_missed} seeded changes are caught by the quick checks: {n_proof} by a named proof "
+t = t.replace("{{SEED_SUMMARY}}", (f"{globals().get('n_neutral', 0)} seeded change(s) stopped being a violation after a repair of the library (the seed's own demo passes "
+              "with the patch; the check correctly stays quiet).  " if globals().get('n_neutral') else "") +
+              f"{n_proof + n_standin} of {n_proof + n_standin + n_missed} remaining seeded changes are caught by the quick checks: {n_proof} by a named proof "
               f"obligation (the VIOLATION names the obligation and, where the counter-model is executable, a replayed input), {n_standin} by a bounded "
               "stand-in.  Seeds that were first missed and what was changed because of them: C02-a (memory-layout ghost on `np.put(x.ravel())` + `np.pad` "
               "model + F-ordered generated inputs), C08-a (history contract on `Grid.face_areas`, `getattr` model), C03-b (contracts on the MPAS table "
